@@ -48,7 +48,7 @@ def indexReview : List (String × Nat × String) := [
   ("execOpts.validate", 4, "o.tx.Inputs[o.inputIdx] after the range test on inputIdx (fix 180950e)."),
   ("getStack", 1, "array allocated with the stack depth, i below it."),
   ("setStack", 1, "i ranges over data."),
-  ("thread.Step", 6, "scripts[scriptIdx][scriptOff] after validPC; savedFirstStack[len-1] is the model's panic site savedFirstStack[-1] (unreachable: p2sh_lock_needs_item)."),
+  ("thread.Step", 7, "scripts[scriptIdx][scriptOff] after validPC; scripts[scriptIdx] in the two zero-length-script tests (normal end and, since fix F-C05-04, early return) is guarded by scriptIdx < len(scripts) in the same condition; savedFirstStack[len-1] is the model's panic site savedFirstStack[-1] (unreachable: p2sh_lock_needs_item)."),
   ("thread.apply", 4, "scripts has two elements by construction; opts.tx.Inputs[opts.inputIdx] validated."),
   ("thread.checkPubKeyEncoding", 3, "pubKey[0] under len == 33 / len == 65."),
   ("thread.checkSignatureEncoding", 17, "every offset is compared with sigLen before the read. Model: checkSignatureEncoding reads with a default (byteAt) under the same comparisons; the correspondence sweeps a valid signature cut at every length with the R length swept across the cut, so a weakened comparison shows as a Go panic."),
